@@ -476,11 +476,11 @@ bool SuppressionList::isSuppressed(const SuppressionList::ErrorMessage &errmsg, 
     const bool unmatchedSuppression(errmsg.errorId == "unmatchedSuppression");
     bool returnValue = false;
     for (Suppression &s : mSuppressions) {
-        if (!global && !s.isLocal())
-            continue;
         if (unmatchedSuppression && s.errorId != errmsg.errorId)
             continue;
-        if (s.isMatch(errmsg))
+        // always update the matched state of global suppressions - otherwise a global suppression
+        // is reported as unmatched if all its findings are also suppressed locally (e.g. inline)
+        if (s.isMatch(errmsg) && (global || s.isLocal()))
             returnValue = true;
     }
     return returnValue;
